@@ -54,6 +54,22 @@ fn std(
     })
 }
 
+/// Three keys; every write is flushed and (optionally) followed by a leveled compaction with the
+/// "always over capacity" parameter set 2 of `TreeCfg::small`.
+fn cascade_alphabet() -> Alphabet {
+    let mut al = Alphabet::default();
+    for k in 0..3u8 {
+        for del in [false, true] {
+            let w = if del { Op::Del { k } } else { Op::Put { k, big: false } };
+            al.extra.push(Op::Seq { ops: vec![w.clone(), Op::Flush { w: Wm::Tight }, Op::Leveled { w: Wm::Tight, p: 2 }] });
+            al.extra.push(Op::Seq { ops: vec![w, Op::Flush { w: Wm::Tight }] });
+        }
+    }
+    al.extra.push(Op::Leveled { w: Wm::Tight, p: 2 });
+    al.extra.push(Op::Seq { ops: vec![Op::Batch { puts: vec![0], dels: vec![2] }, Op::Flush { w: Wm::Tight }] });
+    al
+}
+
 fn cfg_alt_layout(keys: Vec<Vec<u8>>) -> TreeCfg {
     let mut c = TreeCfg::small(keys);
     c.lz4 = true;
@@ -209,16 +225,7 @@ pub fn scenarios(prop: &str, tier: &str) -> Vec<Arc<dyn Scenario>> {
                 // strategy keeps opening a new L1 above the populated levels and picks L(k) -> L(k+1)
                 // merges by score; three keys, every write flushed and followed by one or two
                 // leveled compactions
-                let mut al = Alphabet::default();
-                for k in 0..3u8 {
-                    for del in [false, true] {
-                        let w = if del { Op::Del { k } } else { Op::Put { k, big: false } };
-                        al.extra.push(Op::Seq { ops: vec![w.clone(), Op::Flush { w: Wm::Tight }, Op::Leveled { w: Wm::Tight, p: 2 }] });
-                        al.extra.push(Op::Seq { ops: vec![w, Op::Flush { w: Wm::Tight }] });
-                    }
-                }
-                al.extra.push(Op::Leveled { w: Wm::Tight, p: 2 });
-                al.extra.push(Op::Seq { ops: vec![Op::Batch { puts: vec![0], dels: vec![2] }, Op::Flush { w: Wm::Tight }] });
+                let mut al = cascade_alphabet();
                 al.reopen = !quick;
                 let bd = if quick { bs(4, 1, 0, 0, 0) } else { bs(5, 2, 0, 1, 0) };
                 v.push(std(&format!("{prop}-cascade-k3"), TreeCfg::small(keys_abc()), al, bd, vec![vec![]], oracle));
@@ -344,6 +351,13 @@ pub fn scenarios(prop: &str, tier: &str) -> Vec<Arc<dyn Scenario>> {
                 am.rotate = false;
                 let bd = if quick { bs(3, 2, 0, 0, 0) } else { bs(3, 3, 0, 0, 0) };
                 v.push(std("C02-midsnap", c, am, bd, seeds_upto(1), OracleKind::C02));
+            }
+            {
+                // snapshots held across merges chosen by score in a cascade of over-full levels
+                let mut ac = cascade_alphabet();
+                ac.snap = true;
+                let bd = if quick { bs(3, 1, 1, 0, 0) } else { bs(4, 2, 2, 0, 0) };
+                v.push(std("C02-cascade-k3", TreeCfg::small(keys_abc()), ac, bd, vec![vec![]], OracleKind::C02));
             }
             if quick {
                 v.push(std(
